@@ -7,6 +7,7 @@ package main
 import (
 	"fmt"
 	"go/ast"
+	"go/printer"
 	"go/token"
 	"sort"
 	"strings"
@@ -83,10 +84,48 @@ func init() {
 			}
 		}
 		sort.Strings(fields)
+		// the minifier values of run(): how each `xMinifier` variable is defined, what is assigned to its fields, and under
+		// which media types it is registered — the template flavours must be copies of htmlMinifier (made after the flags
+		// were parsed) so that every --html-* flag reaches them
+		var registry []string
+		for _, f := range fs {
+			for _, d := range f.Decls {
+				fd, ok := d.(*ast.FuncDecl)
+				if !ok || fd.Body == nil || fd.Name.Name != "run" {
+					continue
+				}
+				ast.Inspect(fd.Body, func(n ast.Node) bool {
+					switch t := n.(type) {
+					case *ast.AssignStmt:
+						if len(t.Lhs) == 1 && len(t.Rhs) == 1 {
+							l := exprText(r.Fset, t.Lhs[0])
+							base := l
+							if i := strings.IndexByte(l, '.'); i >= 0 {
+								base = l[:i]
+							}
+							if strings.HasSuffix(base, "Minifier") {
+								registry = append(registry, fmt.Sprintf("def %s %s %s", l, t.Tok.String(), c16Src(r, t.Rhs[0])))
+							}
+						}
+					case *ast.CallExpr:
+						ft := exprText(r.Fset, t.Fun)
+						if (ft == "m.Add" || ft == "m.AddRegexp") && len(t.Args) == 2 {
+							a := exprText(r.Fset, t.Args[1])
+							if strings.HasSuffix(a, "Minifier") {
+								registry = append(registry, fmt.Sprintf("reg %s -> %s", exprText(r.Fset, t.Args[0]), a))
+							}
+						}
+					}
+					return true
+				})
+			}
+		}
+		sort.Strings(registry)
 		var b strings.Builder
 		b.WriteString(header("CliFlags", "/repo/cmd/minify/main.go (AddOpt calls) and the Minifier option structs"))
 		fmt.Fprintf(&b, "/-- `--flag=xMinifier.Field` for every CLI flag bound to an option struct field -/\ndef flags : List String := %s\n\n", leanStrList(flags))
-		fmt.Fprintf(&b, "/-- exported fields of the six `Minifier` option structs -/\ndef optionFields : List String := %s\n", leanStrList(fields))
+		fmt.Fprintf(&b, "/-- exported fields of the six `Minifier` option structs -/\ndef optionFields : List String := %s\n\n", leanStrList(fields))
+		fmt.Fprintf(&b, "/-- `run()`: definitions of and assignments to the `xMinifier` variables (`def`), registrations (`reg`) -/\ndef registry : List String := %s\n", leanStrList(registry))
 		b.WriteString(footer("CliFlags"))
 		return b.String(), nil
 	})
@@ -285,4 +324,13 @@ func init() {
 		b.WriteString(footer("OptionSites"))
 		return b.String(), nil
 	})
+}
+
+// c16Src prints an expression in full (types.ExprString abbreviates composite literals)
+func c16Src(r *Repo, e ast.Expr) string {
+	var b strings.Builder
+	if err := printer.Fprint(&b, r.Fset, e); err != nil {
+		return exprText(r.Fset, e)
+	}
+	return strings.Join(strings.Fields(b.String()), " ")
 }
